@@ -268,6 +268,23 @@ def check(run, prog, tier):
             run.ob("M3", f"{cse.qual}:{k}", d.get(k) == w, loc(cse), f"{k} = {show(d.get(k)) if d.get(k) else '<default>'}; expected {show(w)}")
         mv = d.get("minver_or_counter")
         okm = mv == ("binop", "|", ("binop", "<<", cnt, const(16)), ("attr", egme, "eventgroup_id")) or mv == ("binop", "|", ("attr", egme, "eventgroup_id"), ("binop", "<<", cnt, const(16)))
+        if not okm and mv is not None:
+            # spelled differently (counter * 0x10000, +, ...): the formula must agree with (counter << 16) | id on the corner
+            # points of both fields (the operations involved are shifts / products by constants and bitwise or)
+            try:
+                okm = True
+                for cv in (0, 1, 2, 0xF, 0xFF):
+                    for ev_ in (0, 1, 0x8000, 0xFFFF):
+                        def leaf(tm, cv=cv, ev_=ev_):
+                            if tm == cnt:
+                                return cv
+                            if tm == ("attr", egme, "eventgroup_id"):
+                                return ev_
+                            raise AnalysisError("other")
+                        if eval_term(mv, leaf) != ((cv << 16) | ev_):
+                            okm = False
+            except (AnalysisError, TypeError, ValueError):
+                okm = False
         run.ob("M3", f"{cse.qual}:counter-and-eventgroup", okm, loc(cse), f"counter/eventgroup field = {show(mv) if mv else '?'}; expected (counter << 16) | eventgroup_id")
         o1 = d.get("options_1")
         oko = o1 is not None and o1[0] == "tuple" and len(o1[1]) == 1 and o1[1][0][0] == "call" and o1[1][0][1][-1] == s2e.qual \
